@@ -87,16 +87,16 @@ theorem eraseRange_unfold (h : Heap) (v : SVec) (first last : Nat) :
 
 /-! ## `erase(iterator)` -/
 
-theorem eraseOneLoop_none : ∀ (fuel i : Nat) (a : List Row), i ≠ a.length → eraseOneLoop fuel i a = none
+theorem eraseOneLoopBeforeFix_none : ∀ (fuel i : Nat) (a : List Row), i ≠ a.length → eraseOneLoopBeforeFix fuel i a = none
   | 0, _, _, _ => rfl
   | fuel + 1, i, a, hne => by
-    unfold eraseOneLoop
+    unfold eraseOneLoopBeforeFix
     have : (i != a.length) = true := by simpa using hne
     rw [if_pos this]
-    exact eraseOneLoop_none fuel i _ (by rw [swapIn_length]; exact hne)
+    exact eraseOneLoopBeforeFix_none fuel i _ (by rw [swapIn_length]; exact hne)
 
-theorem eraseOneLoop_last (fuel : Nat) (a : List Row) : eraseOneLoop (fuel + 1) a.length a = some a := by
-  unfold eraseOneLoop
+theorem eraseOneLoopBeforeFix_last (fuel : Nat) (a : List Row) : eraseOneLoopBeforeFix (fuel + 1) a.length a = some a := by
+  unfold eraseOneLoopBeforeFix
   simp
 
 end OwnsKit
@@ -162,17 +162,17 @@ theorem swapping_vector_erase_range (h : Heap) (v : SVec) (first last : Nat) (fr
   exact (destroyRows_refines h b' _ hO').1
 
 /-- `erase(iterator)` as written never terminates unless the element is the last one -/
-theorem swapping_vector_erase_one_diverges (fuel : Nat) (h : Heap) (v : SVec) (i : Nat) (hi : i + 1 < v.size) :
-    v.eraseOne fuel h i = none := by
+theorem swapping_vector_erase_one_before_fix_diverges (fuel : Nat) (h : Heap) (v : SVec) (i : Nat) (hi : i + 1 < v.size) :
+    v.eraseOneBeforeFix fuel h i = none := by
   have hne : i + 1 ≠ v.impl.length := Nat.ne_of_lt hi
-  unfold SVec.eraseOne
-  rw [eraseOneLoop_none fuel (i + 1) v.impl hne]
+  unfold SVec.eraseOneBeforeFix
+  rw [eraseOneLoopBeforeFix_none fuel (i + 1) v.impl hne]
 
-theorem swapping_vector_erase_one_last (fuel : Nat) (h : Heap) (v : SVec) (i : Nat) (hi : i + 1 = v.size) :
-    (v.eraseOne (fuel + 1) h i).map (fun o => o.2.impl) = some v.impl.dropLast := by
+theorem swapping_vector_erase_one_before_fix_last (fuel : Nat) (h : Heap) (v : SVec) (i : Nat) (hi : i + 1 = v.size) :
+    (v.eraseOneBeforeFix (fuel + 1) h i).map (fun o => o.2.impl) = some v.impl.dropLast := by
   have hi' : i + 1 = v.impl.length := hi
-  unfold SVec.eraseOne
-  rw [hi', eraseOneLoop_last]
+  unfold SVec.eraseOneBeforeFix
+  rw [hi', eraseOneLoopBeforeFix_last]
   simp [List.dropLast_eq_take]
 
 end C13Proofs
